@@ -157,7 +157,13 @@ def check_partition(C, N, mode, result):
     want, wl = (bmin, lmin) if mode == MIN else (bmax, lmax)
     # relative to the magnitude of the costs themselves (a matrix may be given in units of 1e-10 or 1e13)
     scale = N * max([abs(C[a][b]) for a in range(N) for b in range(a + 1, N)] + [0.0])
-    if not abs(got - want) <= 1e-9 * scale:
+    rel = 1e-9
+    if scale < 2 ** 52 and all(float(C[a][b]).is_integer() for a in range(N) for b in range(a + 1, N)):
+        # integer-valued costs whose sums stay below 2^53: every sum is exact in floating point, on both sides -- the
+        # optimum is judged exactly (costs with a large common part and small misfits differ in the last digits only)
+        rel = 0.0
+        M.CTX.count("integer_valued_costs_judged_exactly")
+    if not abs(got - want) <= rel * scale:
         return {"what": "summed cost of the returned list is not the %s over all strictly increasing lists"
                         % ("minimum" if mode == MIN else "maximum"),
                 "direction": "MINIMIZE" if mode == MIN else "MAXIMIZE", "returned": lst, "returned_cost": got,
@@ -294,6 +300,13 @@ def random_upper(rng, N, fam):
     if fam == "large_unit":
         # costs of 4e13 that differ by units
         return [4e13 + float(rng.randrange(0, 6)) for _ in range(n)]
+    if fam == "int_sentinel":
+        # small integer costs with the natural INTEGER sentinel for a forbidden segment (2**62); handed over as int64
+        return [float(2 ** 62) if rng.random() < 0.35 else float(rng.randrange(0, 6)) for _ in range(n)]
+    if fam == "common_part":
+        # costs that grow with the length of the segment by a large common amount (1e12 per fix spanned) plus a small
+        # misfit: every partition sums to the same large constant plus its misfits (all values exact below 2^53)
+        return [1e12 * (j - i) + float(rng.randrange(0, 7)) for i in range(N) for j in range(i + 1, N)]
     if fam == "huge":
         return [1e300 + 1 if rng.random() < 0.4 else 1.0 + round(rng.uniform(0, 3), 3) for _ in range(n)]
     raise M.HarnessError("family " + fam)
@@ -365,7 +378,7 @@ def chunks(tier, seed):
                     "key": "exh6_%d" % k})
     for k in range(8):
         out.append({"kind": "rnd", "family": FAMS[k % len(FAMS)], "n": 2 * sz["rnd"], "key": "rnd%d" % k})
-    for k, fam in enumerate(["tiny_unit", "large_unit"]):
+    for k, fam in enumerate(["tiny_unit", "large_unit", "common_part", "int_sentinel"]):
         out.append({"kind": "rnd", "family": fam, "n": sz["rnd"], "key": "unit%d" % k})
     for k in range(6 if tier == "quick" else 16):
         out.append({"kind": "big", "n": 1, "key": "big%d" % k, "idx": k})
@@ -553,7 +566,10 @@ def run_mat(case, ctx):
     flat = [float(v) for v in case["upper"]] + [float(v) for v in (case["diag"] or [])]
     h = (N * 7 + int(sum(abs(v) for v in flat[:50]) * 8)) % 9
     rep = None
-    if all(v == int(v) and abs(v) < 100 for v in flat):
+    if case.get("src") == "int_sentinel" and not case["diag"]:
+        rep, C = "int64", C.astype(np.int64)
+        cls.append("integer_sentinel_for_forbidden_segments")
+    elif all(v == int(v) and abs(v) < 100 for v in flat):
         if h == 1:
             rep, C = "int64", C.astype(np.int64)
         elif h == 2:
